@@ -1,4 +1,5 @@
 import CifModel.Lemmas.StoreWorld
+import CifModel.Lemmas.StoreWSim
 /-
   Property C05 — a failed API call leaves the managed CIF unchanged.
 -/
@@ -226,12 +227,9 @@ theorem C05_atomic (w : World) (op : Op) (hpk : WPK w) (h : (step w op).2.rc ≠
       exact rel_of_error w e.cif s (liveI_liveC hl) (abortIter s) (fun x he => by rw [abortIter_error s x he]; exact Same.refl s) h c'
 
 
-/-- C05, second half.  A CIF that is not inside an iterator's transaction is — as a whole: content, row and loop counters,
-    id sequence, transaction state — exactly what it was before the failed call; so every later call on it behaves as if the
-    failed one had never been made.  (Inside an iterator's transaction the same holds up to left-over `savepoint s`
-    entries, all of them snapshots of the unchanged content: `C05_atomic`; that no later call can tell them apart is the
-    part not proved: `C05_next_call_unaffected_full`.) -/
-theorem C05_next_call_unaffected (w : World) (op : Op) (hpk : WPK w) (h : (step w op).2.rc ≠ some CIF_OK)
+/-- A CIF that is not inside an iterator's transaction is — as a whole: content, row and loop counters, id sequence,
+    transaction state — exactly what it was before the failed call. -/
+theorem C05_failed_call_restores_store (w : World) (op : Op) (hpk : WPK w) (h : (step w op).2.rc ≠ some CIF_OK)
     (c : Nat) (s : Store) (hs : w.cifs.getD c none = some s) (hac : s.autocommit = true) :
     (step w op).1.cifs.getD c none = some s := by
   have := C05_atomic w op hpk h c
@@ -243,12 +241,39 @@ theorem C05_next_call_unaffected (w : World) (op : Op) (hpk : WPK w) (h : (step 
     have hsame : Same s s' := this
     rw [hsame.eq_of_autocommit hac]
 
-/-- FULL statement of the second half (not proved for CIFs inside an iterator's transaction): after a failed call, every
-    continuation of the history returns the same results as it does without the failed call -/
-def C05_next_call_unaffected_full : Prop :=
-  ∀ (w : World) (op : Op) (ops : List Op), WPK w → (step w op).2.rc ≠ some CIF_OK →
-    (∀ h, op ≠ .cdestroy h) →                     -- (a failed destroy releases the handle object: a different history)
-    ((run (step w op).1 ops).2.map (·.rc)) = ((run { (step w op).1 with cifs := w.cifs } ops).2.map (·.rc))
+theorem step_cifs_length (w : World) (op : Op) (h : (step w op).2.rc ≠ some CIF_OK) : (step w op).1.cifs.length = w.cifs.length := by
+  cases op <;> simp only [step] at h ⊢ <;>
+    first
+    | exact absurd rfl h
+    | (repeat' split) <;> simp [World.setCif]
+
+/-- C05, second half, in full: after a failed call — outside or INSIDE an iterator's transaction — every continuation of the
+    history returns exactly the results it returns when every CIF is put back to its state before the failed call
+    ("a following valid call behaves as if the failed one had never been made").  The only trace a failed call can leave are
+    `savepoint s` entries that are snapshots of the unchanged content (`C05_atomic`), and no API function can see them
+    (`step_wsim`: every `release`/`rollback to` of the library is preceded by its own `savepoint`). -/
+theorem C05_next_call_unaffected (w : World) (op : Op) (ops : List Op) (hinv : WInv w) (h : (step w op).2.rc ≠ some CIF_OK) :
+    (run (step w op).1 ops).2 = (run { (step w op).1 with cifs := w.cifs } ops).2 := by
+  have hpk : WPK w := fun c s hs => (hinv c s hs).db.toLoopPK
+  have hw : WSim { (step w op).1 with cifs := w.cifs } (step w op).1 := by
+    refine ⟨rfl, rfl, rfl, step_cifs_length w op h, ?_⟩
+    intro c
+    have := C05_atomic w op hpk h c
+    show SlotRel Sim (w.cifs.getD c none) ((step w op).1.cifs.getD c none)
+    cases h1 : w.cifs.getD c none with
+    | none =>
+      rw [h1] at this
+      cases h2 : (step w op).1.cifs.getD c none with
+      | none => trivial
+      | some s' => rw [h2] at this; exact absurd this (by simp [SlotRel])
+    | some s =>
+      rw [h1] at this
+      cases h2 : (step w op).1.cifs.getD c none with
+      | none => rw [h2] at this; exact absurd this (by simp [SlotRel])
+      | some s' =>
+        rw [h2] at this
+        exact Same.sim this (hinv c s h1).txwf
+  exact (run_wsim ops _ _ hw).1
 
 -- non-vacuity: a failing call inside and outside a transaction
 private def n (k o : Str) : Name := { key := k, orig := o, valid := true }
